@@ -4,6 +4,7 @@ import (
 	"go/constant"
 	"go/token"
 	"go/types"
+	"sort"
 	"strings"
 
 	"golang.org/x/tools/go/ssa"
@@ -258,3 +259,5 @@ func (p *Program) vtaCallees() func(site ssa.CallInstruction) []*ssa.Function {
 		return out
 	}
 }
+
+func sortStrings(s []string) { sort.Strings(s) }
